@@ -199,7 +199,6 @@ package mqtt
 //@ func (*pktPubAck).Parse
 //@   mode int
 //@   props C06
-//@   freshresult
 //@   assigns p.ID
 //@   requires p != nil
 //@   ensures[C06] flag != 0 ==> result1 != nil
